@@ -9,6 +9,7 @@ import (
 	"encoding/hex"
 	"fmt"
 	"go/types"
+	"strings"
 
 	"golang.org/x/crypto/sha3"
 )
@@ -86,7 +87,12 @@ func init() {
 					return tuple{"", e}
 				}
 				pub, _ := s[1].([]value)
-				return tuple{hex.EncodeToString(h256([]byte("sig"), valuesToBytes(pub), h)), iface{}}
+				sig := hex.EncodeToString(h256([]byte("sig"), valuesToBytes(pub), h))
+				if fr.i.p.sigs == nil {
+					fr.i.p.sigs = map[string][2]string{}
+				}
+				fr.i.p.sigs[sig] = [2]string{hex.EncodeToString(valuesToBytes(pub)), hex.EncodeToString(h)}
+				return tuple{sig, iface{}}
 			}
 			externals[recv+"Verify"] = func(fr *frame, args []value) value {
 				s := fields(args)
@@ -98,6 +104,15 @@ func init() {
 				h, err := hex.DecodeString(args[2].(string))
 				if err != nil {
 					return tuple{false, fr.i.makeError(err.Error())}
+				}
+				// a signature produced in this run verifies iff the key is the signing key and the
+				// message equals the signed message SEMANTICALLY (hashes of data with symbolic
+				// parts are compared through their preimages, symstr.go)
+				if rec, ok := fr.i.p.sigs[strings.ToLower(sig)]; ok { // hex decoding ignores case
+					if rec[0] != hex.EncodeToString(valuesToBytes(pub)) {
+						return tuple{false, iface{}}
+					}
+					return tuple{strEqValue(fr, rec[1], hex.EncodeToString(h)), iface{}}
 				}
 				return tuple{sig == hex.EncodeToString(h256([]byte("sig"), valuesToBytes(pub), h)), iface{}}
 			}
